@@ -1,11 +1,12 @@
 SPECIFICATION Spec
 CONSTANTS
   Keys = {"g1:r/webhook/0", "g1:r/email/1"}
-  Threads = {1, 2}
-  MaxTime = 4
+  Threads = {1, 2, 3}
+  MaxTime = 2
   MaxCalls = 3
   Retention = 4
   RemoteRetention = 3
+  Payloads <- Payloads2
   GCMode = "atomic"
 VIEW View
 INVARIANTS NewestHeld
